@@ -497,8 +497,8 @@ def run_routes(ctx, exe, prog, routes, tp):
     for r in routes:
         ctx._scr = getattr(ctx, "_scr", 0) + 1
         d = ctx.tmp / f"scr{ctx._scr}"
-        d.mkdir()
-        rc, out, err = ctx.run(exe, [r, d], text=text, timeout=120,
+        (d / "root").mkdir(parents=True)      # a private parent: symlink targets like ../x stay inside this run's directory
+        rc, out, err = ctx.run(exe, [r, d / "root"], text=text, timeout=120,
                                env={"UV_USE_IO_URING": "1", "UV_THREADPOOL_SIZE": str(tp)})
         shutil.rmtree(d, ignore_errors=True)
         res[r] = (rc, out.splitlines(), err)
